@@ -1,4 +1,4 @@
-import AnySyncModel.Ldiff.Lemmas
+import AnySyncModel.Ldiff.Arith
 /-!
 # C07 — the range-hash diff reports exactly the differing ids
 
@@ -21,10 +21,8 @@ def C07_diff_exact_full : Prop :=
   ∀ (p : Params) (a b : List Elem) (greater wire : Bool),
     2 ≤ p.df → 1 ≤ p.thr → a.length < 4294967296 → b.length < 4294967296 →
     (a.map (·.id)).Nodup → (b.map (·.id)).Nodup →
-    (SplitOk p.df 0 (M - 1) ∧ ∀ i, i < p.df →
-      WidthOk p a depthFuel (childRange 0 (M - 1) p.df i).1 (childRange 0 (M - 1) p.df i).2 ∧
-      WidthOk p b depthFuel (childRange 0 (M - 1) p.df i).1 (childRange 0 (M - 1) p.df i).2) →
-    ∃ c, diff A greater wire (canon A p a) (canon A p b) = some c ∧
+    TopOk goSplit p a → TopOk goSplit p b →
+    ∃ c, diff A goSplit greater wire (canon A goSplit p a) (canon A goSplit p b) = some c ∧
       c.newIds.Perm (specNew (pairs a) (pairs b)) ∧
       c.removed.Perm (specRemoved (pairs a) (pairs b)) ∧
       (greater = false → c.changed.Perm (specChanged (pairs a) (pairs b)) ∧ c.theirChanged = []) ∧
@@ -52,15 +50,15 @@ theorem elemsHash_inj {D} (A : DigAlg D) (h : DigOk A) (l l' : List Elem)
 /-- an element digest never equals a divided digest: a divided range is never skipped against an
 undivided one -/
 theorem elems_ne_divided {D} (A : DigAlg D) (h : DigOk A) (l : List Elem) (ts : List (Tree D)) :
-    elemsHash A l ≠ listHash A ts := by
-  unfold elemsHash listHash
+    elemsHash A l ≠ kidsHash A ts := by
+  unfold elemsHash kidsHash
   split
   · simp
   · intro he; exact h.sep _ _ (Option.some.inj he)
 
 /-- equal hashes: nothing is reported and nothing is scheduled -/
-theorem compareResults_equal {D} [DecidableEq D] (A : DigAlg D) (g : Bool) (my : Index D) (c : DCtx)
-    (r : Range) (m o : RangeRes D) (h : m.hash = o.hash) : compareResults A g my c r m o = c := by
+theorem compareResults_equal {D} [DecidableEq D] (A : DigAlg D) (S : Splitter) (g : Bool) (my : Index D) (c : DCtx)
+    (r : Range) (m o : RangeRes D) (h : m.hash = o.hash) : compareResults A S g my c r m o = c := by
   simp [compareResults, h]
 
 /-- non-vacuity: one element-list comparison with a removed, a changed and a new id -/
